@@ -127,7 +127,12 @@ def oracle(case):
             if finite(b) and finite(a) and abs(a - b * s ** p) > 2e-4 * abs(a) + 0.006 * (1 + s ** p):
                 v.append({"what": f"scaling all lengths by {s}: {k} went from {b} to {a}, expected x{s ** p}", "key": {"class": "scaling", "what": k}})
         b, a = sc["before"]["compactness"], sc["after"]["compactness"]
-        if finite(b) and finite(a) and b > 0 and abs(a - b * s) > 2e-3 * max(1.0, abs(a)):
+        # V/A with V rounded to the centimetre-cube and A a sum of areas rounded to the centimetre-square, before and after: the
+        # relative error of each rounding is 0.005 / V resp. (0.005 per element) / A — visible once a building is scaled down
+        va, vb = sc["after"].get("vol_env_net") or 0.0, sc["before"].get("vol_env_net") or 0.0
+        ea, eb = sc["after"].get("exposed") or 0.0, sc["before"].get("exposed") or 0.0
+        rel = 2e-3 + (0.0051 * (1 / va + 1 / vb) + 0.03 * (1 / ea + 1 / eb) if min(va, vb, ea, eb) > 0 else 1.0)
+        if finite(b) and finite(a) and b > 0 and abs(a - b * s) > rel * max(1.0, abs(a)):
             v.append({"what": f"scaling all lengths by {s}: compactness went from {b} to {a}, expected x{s}", "key": {"class": "scaling", "what": "compactness"}})
         _stats["scaled_pairs"] += 1
     return v[:3]
